@@ -111,7 +111,7 @@ Qed.
 
 Lemma f1_tables_facts f fd w :
   nth_error (fl_design fb) f = Some fd -> ff_window fd = Some w ->
-  Forall (fun dd => dd < f) (win_deps w) /\
+  Forall (fun dd => dd < nf fb) (win_deps w) /\
   (forall lv entry, In lv (ff_levels fd) -> In entry (lv_accepts lv) -> entry_ok fb (win_deps w) entry = true).
 Proof.
   intros Efd Ew. destruct (f1_tables fb FF f fd Efd) as [Htab _]. unfold tables_ok in Htab. rewrite Ew in Htab.
